@@ -14,7 +14,7 @@ package system
 //@ iface system.Conn.ReadFrom(self) (m, cm, host, err)
 //@   assigns ghost.reads
 //@   ensures R1: ghost.reads == old(ghost.reads) + 1
-//@   ensures R2: err == nil ==> cm != nil && m != nil
+//@   ensures R2: err == nil ==> cm != nil && m != nil && msgOK(m)
 //@   ensures R3: !isPkgSentinel(err)
 //@ iface system.Conn.SetReadDeadline(self, t) (err)
 //@ iface system.Conn.WriteTo(self, m, cm, dst) (err)
